@@ -713,3 +713,35 @@ V("affine-leq-vectorised-int32", "break", ["C01", "C07"], P + "affine_leq_propag
     domain_sum_min = parameters[-1] - np.sum(np.maximum(terms_at_min, terms_at_max))
     domain_sum_max = parameters[-1] - np.sum(np.minimum(terms_at_min, terms_at_max))
     if domain_sum_min >= 0:""", "bound sums vectorised on 32-bit arrays: products wrap at 2**31", "compute_domains_affine_leq", expect_rule="R-VECTOR-WIDTH")
+V("max-leq-locals-renamed-neutral", "neutral", ["C07", "C01"], P + "max_leq_propagator.py", None, None, "locals of one of the two mirror siblings renamed",
+  within="def compute_domains_max_leq", edits=[{"old": "    x = domains[:-1]\n    y = domains[-1]\n    if np.max(x[:, MAX]) <= y[MIN]:", "new": "    xs = domains[:-1]\n    bound = domains[-1]\n    x = xs\n    y = bound\n    if np.max(xs[:, MAX]) <= bound[MIN]:"}])
+V("mp-stats-aggregators-renamed-neutral", "neutral", ["C17", "C11"], "nucs/solvers/multiprocessing_solver.py", None, None, "the two aggregators renamed",
+  edits=[{"old": "sum_stats", "new": "total_of", "all": True}, {"old": "max_stats", "new": "largest_of", "all": True}])
+V("mp-stats-depth-summed-table-driven", "break", ["C17", "C11"], "nucs/solvers/multiprocessing_solver.py", None, None,
+  "get_statistics rewritten as a comprehension over the label table: the depth is summed over the workers", "get_statistics",
+  edits=[{"old": "            STATS_LBL_SOLVER_CHOICE_DEPTH: max_stats(self.statistics, STATS_IDX_SOLVER_CHOICE_DEPTH),\n", "new": "            STATS_LBL_SOLVER_CHOICE_DEPTH: sum_stats(self.statistics, STATS_IDX_SOLVER_CHOICE_DEPTH),\n"}])
+V("init-sort-once-stale-flag", "break", ["C15"], PB, None, None, "init() sorts only once; add_propagator does not invalidate the flag", "add_propagator",
+  edits=[{"old": "        self.propagator_nb = 0\n", "new": "        self.propagator_nb = 0\n        self.propagators_sorted = False\n", "occurrence": 0},
+         {"old": "        self.propagators.sort(key=lambda prop: GET_COMPLEXITY_FCTS[prop[1]](len(prop[0]), prop[2]))\n",
+          "new": "        if not self.propagators_sorted:\n            self.propagators.sort(key=lambda prop: GET_COMPLEXITY_FCTS[prop[1]](len(prop[0]), prop[2]))\n            self.propagators_sorted = True\n"}])
+V("init-sort-once-flag-invalidated-neutral", "neutral", ["C15", "C13"], PB, None, None, "init() sorts only once and every mutator of the constraint list invalidates the flag",
+  edits=[{"old": "        self.propagator_nb = 0\n", "new": "        self.propagator_nb = 0\n        self.propagators_sorted = False\n", "occurrence": 0},
+         {"old": "        self.propagators.sort(key=lambda prop: GET_COMPLEXITY_FCTS[prop[1]](len(prop[0]), prop[2]))\n",
+          "new": "        if not self.propagators_sorted:\n            self.propagators.sort(key=lambda prop: GET_COMPLEXITY_FCTS[prop[1]](len(prop[0]), prop[2]))\n            self.propagators_sorted = True\n"},
+         {"old": "        self.propagators.append(propagator)\n", "new": "        self.propagators.append(propagator)\n        self.propagators_sorted = False\n"},
+         {"old": "        self.propagators.extend(propagators)\n", "new": "        self.propagators.extend(propagators)\n        self.propagators_sorted = False\n"}])
+V("element-lic-fast-path-before-clamp", "break", ["C16"], P + "element_lic_propagator.py",
+  "    # i could be updated only once\n", "    if i[MIN] == i[MAX]:\n        l_i = l[i[MIN]]\n        if c < l_i[MIN] or c > l_i[MAX]:\n            return PROP_INCONSISTENCY\n        l_i[:] = c\n        return PROP_ENTAILMENT\n    # i could be updated only once\n",
+  "fast path for an instantiated index placed above the clamp of the index", "compute_domains_element_lic")
+V("element-lic-fast-path-after-clamp-neutral", "neutral", ["C16", "C07", "C01"], P + "element_lic_propagator.py",
+  "    indices: List[int] = []\n", "    if i[MIN] == i[MAX]:\n        l_i = l[i[MIN]]\n        if c < l_i[MIN] or c > l_i[MAX]:\n            return PROP_INCONSISTENCY\n        l_i[:] = c\n        return PROP_ENTAILMENT\n    indices: List[int] = []\n",
+  "the same fast path placed after the clamp")
+V("max-eq-candidates-against-outer-bound", "break", ["C02"], P + "max_eq_propagator.py", None, None,
+  "candidates counted against y[MAX] while the sole candidate is forced to y[MIN] (the pinned tree's defect: solutions removed)", "compute_domains_max_eq",
+  edits=[{"old": "        if x[i, MAX] >= y[MIN]:", "new": "        if x[i, MAX] >= y[MAX]:"}])
+V("min-eq-candidates-against-outer-bound", "break", ["C02"], P + "min_eq_propagator.py", None, None,
+  "mirror slip in min_eq", "compute_domains_min_eq", edits=[{"old": "        if x[i, MIN] <= y[MAX]:", "new": "        if x[i, MIN] <= y[MIN]:"}])
+V("max-eq-bound-in-local-neutral", "neutral", ["C02", "C01", "C08"], P + "max_eq_propagator.py", None, None, "the forced bound held in a local, forced with max()",
+  edits=[{"old": "    candidates_nb = 0\n", "new": "    lowest = y[MIN]\n    candidates_nb = 0\n"},
+         {"old": "        if x[i, MAX] >= y[MIN]:", "new": "        if x[i, MAX] >= lowest:"},
+         {"old": "        x[candidate_idx, MIN] = y[MIN]\n", "new": "        x[candidate_idx, MIN] = max(x[candidate_idx, MIN], lowest)\n"}])
